@@ -281,6 +281,8 @@ class Monitor:
                 self.v("reti", ctx, f"RETI did not restore {fields}" + (" (new delivery in the same step)" if delivered_here else ""), det)
             elif delivered_here and bad == ["PC"] and not rbad:
                 self.v("vector", ctx, "execution did not continue at the interrupt vector", det)
+            elif delivered_here and bad == ["IMR"] and not rbad and A["imr"] == (cur["imr"] | 0x80):
+                self.v("frame", ctx, "delivery did not clear the master enable (IMR bit 7)", det)
             elif delivered_here:
                 self.v("frame", ctx, f"after delivery {fields} differ from S-5 / IMR with bit 7 cleared / vector / untouched registers", det)
             else:
@@ -294,7 +296,7 @@ class Monitor:
                 self.v("reti", ctx, "registers of the interrupted program changed across handler: " + "/".join(diff),
                        f"step {k}: at delivery {reti_frame['regs']} now { {r: A[r] for r in REGS} }")
             if delivered_here:
-                self.labels.add("reti+redelivery")
+                self.labels.add("reti+redelivery" if self.order == "post" else "delivery+reti-in-one-step")
 
         # ---------------- status register bookkeeping (B -> A)
         rose = A["isr"] & ~B["isr"] & 0x0F
